@@ -1394,6 +1394,7 @@ func TestCheck(t *testing.T) {
 		"cross-format agreement (phases E, F and the binary->JSON step of phase C): a value one decoder accepts is a value of the type, so every other wire form of the type must encode it and decode it back to an equal value with the same hash; strings that are not valid UTF-8, reserved attributes, interop/pointer/unserialisable stack entries are outside the domain of the JSON form; the protected and the plain-JSON item forms are lossy by design and only asked to accept what they produce",
 		"limit cases are built in memory at limit-1 / limit / limit+1 (encoders check no limits), with every constructor kind providing the depth or the count and every container (rule, signer, transaction, block) the decoding path; within the limits every form must accept",
 		"structural JSON mutants: the smallest and the longest JSON text of every distinct member-path shape of a codec's generated values (at most 6 / 24 shapes per codec), every node x every replacement of the stated mutation alphabet; the first two and the last element of every list",
+		"embedded / compact forms (phase H): real values are put into the embedding through the function the node uses (RecoveryMessage.AddPayload, dao.StoreAsBlock / StoreAsTransaction / StoreHeader / PutStorageConvertible, Headers / MerkleBlock / Inventory / P2PNotaryRequest / Extensible payloads inside network.Message, Management.deploy / update on a real chain) and taken out through the accessor the node uses; demanded: the same encoding, hash and size, and for signed consensus payloads a witness that still verifies - only for what the compact form carries (ChangeView reason and rejected hashes, the view of a PrepareResponse, the preparation hash next to an embedded PrepareRequest after serialisation are not carried; a PrepareRequest is only compared for carrier view = its own view); the stored or added original must re-encode unchanged afterwards; compact entries of a DECODED RecoveryMessage with a validator index outside the list must not panic",
 		"registry completeness: the repository source (vk.Repo()/pkg) is scanned for methods DecodeBinary, FromStackItem, UnmarshalJSON, FromBytes, DecodeBytes; every receiver type must be mapped to a codec or carry an exemption with a reason (client, wallet, compiler, RPC envelope packages are exempt as packages)",
 	})
 }
@@ -1455,6 +1456,8 @@ func replay(r *vk.Run) {
 		n = replayJSONMut(r, f)
 	case f.Mode == "path2" || f.Mode == "threshold":
 		n = replayPath2(r, f)
+	case f.Mode == "embed":
+		n = replayEmbed(r, f)
 	case c == nil:
 		fmt.Println("replay: unknown codec", f.Codec)
 	case f.Mode == "value":
